@@ -1,7 +1,7 @@
 """C12 — quantile function is the inverse of the CDF."""
 from props import _generic
 import random
-from checklib.core import enc, run_pair, tok_to_float
+from checklib.core import cmp_tokens, enc, run_pair, tok_to_float
 from checklib import gen
 
 LEAN_DEPS = ['RvModel.Spec.C12', 'RvModel.Lemmas.C12', 'RvModel.Hand.C12', 'RvModel.Hand.DispatchAll']
@@ -46,5 +46,44 @@ def extra_run(man, tier, seed):
         if not (abs(cv - p) <= 1e-8):
             failures.append({'site': f'{d}.invcdf_real', 'case': line, 'impl': f'invcdf={tok_to_float(x)!r} cdf(invcdf)={cv!r}',
                              'expected': f'cdf(invcdf(p)) = {p!r} within 1e-8', 'observed': 'value', 'detail': ''})
-    return {'obligations': [], 'failures': failures, 'stats': {'evaluations': 2 * len(l1), 'distinct_nontrivial': len(set(l1))},
-            'samples': l1[:2]}
+    # DiscreteUniform<T> over the integer kinds (hand model Hand.DiscreteUniform.invcdf = a + trunc(p (b-a)); generated cdf at
+    # integers): correspondence with the real code, and the clause that holds for this law: invcdf(cdf x) stays in the support
+    # and x = a ↦ a ... (the code is NOT the generalised inverse: theorem DiscreteUniform_invcdf_counterexample, recorded)
+    RANGE = {'i8': (-128, 127), 'i16': (-32768, 32767), 'i32': (-2 ** 31, 2 ** 31 - 1), 'i64': (-2 ** 40, 2 ** 40), 'u8': (0, 255),
+             'u16': (0, 65535), 'u32': (0, 2 ** 32 - 1)}
+    dl, dmeta = [], []
+    for _ in range(n * 3):
+        kind = rng.choice(list(RANGE))
+        lo, hi = RANGE[kind]
+        w = rng.choice([1, 2, 3, 10, 20, 100, (hi - lo) // 3])
+        a_ = rng.randint(lo, hi - w) if rng.random() < 0.7 else rng.choice([lo, max(lo, -10), max(lo, -1), 0])
+        b_ = min(hi, a_ + w)
+        if a_ >= b_ or b_ - a_ > 2 ** 31:
+            continue
+        p = rng.choice([0.0, 1.0, 1e-12, 1 - 1e-12, 0.5, rng.random(), rng.random()])
+        x = rng.randint(a_, b_)
+        dl.append(f'hand.DiscreteUniform.invcdf {kind} {a_} {b_} {enc(p)}')
+        dmeta.append(('invcdf', kind, a_, b_, p))
+        dl.append(f'hand.DiscreteUniform.cdf {kind} {a_} {b_} {x}')
+        dmeta.append(('cdf', kind, a_, b_, x))
+    di, dm = run_pair(dl)
+    bad = []
+    for line, (what, kind, a_, b_, arg), ai, am in zip(dl, dmeta, di, dm):
+        if am == 'NOOP' or ai == 'NOOP' or am.startswith('BAD'):
+            continue
+        okc, _ = cmp_tokens(ai, am, 1e-12, 1e-15)
+        if not okc:
+            bad.append({'line': line, 'impl': ai, 'model': am})
+        if what == 'invcdf' and ai not in ('PANIC', 'HANG'):
+            v = int(ai)
+            if not (a_ <= v <= b_):
+                failures.append({'site': 'DiscreteUniform.invcdf_real', 'case': line, 'impl': ai, 'expected': f'a quantile inside the support [{a_}, {b_}]',
+                                 'observed': 'value', 'detail': 'quantile outside the support'})
+            elif arg <= 1e-12 and v != a_:
+                failures.append({'site': 'DiscreteUniform.invcdf_real', 'case': line, 'impl': ai, 'expected': f'invcdf(p -> 0) = a = {a_}',
+                                 'observed': 'value', 'detail': 'lower tail'})
+    obligations = [{'name': 'corr:DiscreteUniform.invcdf/cdf(integer kinds, hand model)', 'kind': 'corr', 'ok': not bad, 'site': 'DiscreteUniform.invcdf_real',
+                    'detail': (bad[0]['line'] + ' impl=' + bad[0]['impl'] + ' model=' + bad[0]['model']) if bad else '', 'cases': bad[:3]}]
+    return {'obligations': obligations, 'failures': failures,
+            'stats': {'evaluations': 2 * len(l1) + len(dl), 'distinct_nontrivial': len(set(l1)) + len(set(dl))},
+            'samples': l1[:2] + dl[:1]}
